@@ -6,15 +6,22 @@ import Canopy.Proof.Committee
 its sort comparator is proved equal to the **generated** comparator `Gen.Committee.sortCmp`
 (translated from the closure passed to `slices.SortFunc`), and the +2/3 threshold theorem is about
 the **generated** `Gen.Committee.minPowerFor23Maj` (translated from `lib.NewValidatorSet`).
-The rest of `getValidatorSet` and the historical lookup (`LoadCommittee(h)`) are tied by the
-correspondence run.
+Its eligibility test is proved equal to the **generated** `Gen.Committee.passesFilter` (translated
+from `Validator.PassesFilter`) applied to the **generated** filter literal and delegate-filter choice,
+its cap to the **generated** `limitOf`/`selectCap`, and `members_eq_source` assembles these into "the
+model is the composition of the code's own pieces". The statement that builds `filtered` (a fresh
+slice — the cached validator list is never filtered in place), the slice the members are built from
+and the member fields are generated facts. The historical lookup (`LoadCommittee(h)`) and the caches
+are tied by the correspondence run.
 -/
 namespace Canopy.C13
 open Canopy Canopy.Committee
 
 /-! ## the model's comparator is the code's comparator -/
 
-def toGo (v : Val) : Gen.Committee.GoValidator := { Address := v.address, StakedAmount := v.stake }
+def toGo (v : Val) : Gen.Committee.GoValidator :=
+  { Address := v.address, PublicKey := v.publicKey, StakedAmount := v.stake, Committees := v.committees,
+    MaxPausedHeight := v.maxPausedHeight, UnstakingHeight := v.unstakingHeight, Delegate := v.delegate }
 
 theorem cmpBytes_le_zero (a b : Bytes) : (Gen.Committee.cmpBytes a b ≤ 0) ↔ bytesLe a b = true := by
   induction a generalizing b with
@@ -162,6 +169,72 @@ theorem partial_decision_fact :
 
 theorem filter_literal_fact : Gen.Committee.filterLiteral =
     "lib.ValidatorFilters{Unstaking: lib.FilterOption_Exclude, Paused: lib.FilterOption_Exclude, Delegate: lib.FilterOption(delegateFilter), Committee: chainId}" := rfl
+
+/-! ## the model's filter and cap are the code's filter and cap -/
+
+/-- eligibility as the code computes it: `PassesFilter` on the filter literal of `getValidatorSet` -/
+def srcElig (chain : UInt64) (delegate : Bool) (v : Val) : Bool :=
+  Gen.Committee.passesFilter (toGo v)
+    (Gen.Committee.committeeFilter (Gen.Committee.selectDelegateFilter delegate) chain)
+
+theorem elig_eq_generated (chain : UInt64) (delegate : Bool) (v : Val) :
+    elig chain delegate v = srcElig chain delegate v := by
+  cases delegate <;>
+  simp only [elig, srcElig, Gen.Committee.passesFilter, Gen.Committee.committeeFilter,
+    Gen.Committee.selectDelegateFilter, Gen.Committee.FilterOption_MustBe,
+    Gen.Committee.FilterOption_Exclude, toGo] <;>
+  by_cases hd : v.delegate = true <;>
+    by_cases hu : v.unstakingHeight = 0 <;> by_cases hp : v.maxPausedHeight = 0 <;>
+    by_cases hc : chain = 0 <;> by_cases hm : v.committees.contains chain = true <;>
+    simp [hd, hu, hp, hc]
+
+theorem u64_toNat_min (a b : UInt64) : (min a b).toNat = min a.toNat b.toNat := Eq.symm min_apply
+
+/-- the cap as the code computes it (the population size is a Go `int`, so it fits a `uint64`) -/
+theorem limit_eq_generated (n : Nat) (hn : n < 2 ^ 64) (cap : UInt64) :
+    limit n cap = (Gen.Committee.limitOf (UInt64.ofNat n) cap).toNat := by
+  have hof : (UInt64.ofNat n).toNat = n := by
+    simp [UInt64.toNat_ofNat']; omega
+  simp only [limit, Gen.Committee.limitOf]
+  by_cases hc : cap > 0
+  · simp only [hc, ↓reduceIte, decide_true]
+    rw [u64_toNat_min, hof]
+  · simp only [hc, ↓reduceIte, decide_false]
+    exact hof.symm
+
+/-- the committee cap / delegate cap chosen by `delegate` -/
+theorem select_cap_fact (capV capD : UInt64) :
+    Gen.Committee.selectCap false capV capD = capV ∧ Gen.Committee.selectCap true capV capD = capD := by
+  simp [Gen.Committee.selectCap]
+
+/-- **members_eq_source**: the hand model is the composition of the generated pieces of
+`getValidatorSet`: filter by the code's `PassesFilter` on the code's literal, sort by the code's
+comparator, take the code's `limit`. -/
+theorem members_eq_source (vals : List Val) (chain cap : UInt64) (delegate : Bool) (hn : vals.length < 2 ^ 64) :
+    members vals chain cap delegate =
+      let f := vals.filter (srcElig chain delegate)
+      let s := f.mergeSort (fun a b => decide (Gen.Committee.sortCmp (toGo a) (toGo b) ≤ 0))
+      s.take (Gen.Committee.limitOf (UInt64.ofNat s.length) cap).toNat := by
+  have h1 : (elig chain delegate) = (srcElig chain delegate) := funext (elig_eq_generated chain delegate)
+  have h2 : before = (fun a b => decide (Gen.Committee.sortCmp (toGo a) (toGo b) ≤ 0)) :=
+    funext fun a => funext fun b => before_eq_generated a b
+  have hlen : ((vals.filter (srcElig chain delegate)).mergeSort
+      (fun a b => decide (Gen.Committee.sortCmp (toGo a) (toGo b) ≤ 0))).length < 2 ^ 64 := by
+    rw [List.length_mergeSort]; exact Nat.lt_of_le_of_lt (List.length_filter_le _ _) hn
+  simp only [members, h1, h2]
+  rw [limit_eq_generated _ hlen]
+
+/-- the slice the filter produces is fresh: `getValidatorSet` never filters or sorts the cached
+validator list in place (that list is shared by every derivation of the block and, for historical
+state machines, by every lookup of that height) -/
+theorem filtered_is_fresh : Gen.Committee.filteredSrc =
+    "filtered := slices.Collect(func(...){for _, v := range validators { if !v.PassesFilter(<FILTER>) { continue }; if !yield(v) { return } }})" := rfl
+
+/-- members are built from the first `limit` sorted candidates; voting power is the stake and the
+consensus key is the validator's public key -/
+theorem member_construction_fact : Gen.Committee.memberRange = "filtered[:limit]" ∧
+    ("PublicKey", "v.PublicKey") ∈ Gen.Committee.memberFields ∧
+    ("VotingPower", "v.StakedAmount") ∈ Gen.Committee.memberFields := by decide
 
 /-! ## non-vacuity -/
 def exA : Val := { address := [1], publicKey := [11], stake := 5, committees := [1], maxPausedHeight := 0, unstakingHeight := 0, delegate := false }
